@@ -4367,12 +4367,17 @@ func (r *RoutingPolicy) AddDefinedSet(s DefinedSet, replace bool) error {
 	if m, ok := r.definedSetMap[s.Type()]; !ok {
 		return fmt.Errorf("invalid defined-set type: %d", s.Type())
 	} else {
-		if d, ok := m[s.Name()]; ok && !replace {
-			if err := d.Append(s); err != nil {
-				return err
-			}
-		} else {
+		d, ok := m[s.Name()]
+		switch {
+		case !ok:
 			m[s.Name()] = s
+		case replace:
+			// conditions of installed statements hold a pointer to
+			// the existing set; replace its contents in place so
+			// that they keep matching what is read back.
+			return d.Replace(s)
+		default:
+			return d.Append(s)
 		}
 	}
 	return nil
